@@ -165,7 +165,11 @@ func c20HtreeNode(b []byte, bs int, blocks []uint32) {
 // names, types): all entries of both leaves are returned, each exactly once, leaf by leaf in index order.
 func VP_C20_dir_htree() {
 	bs := 48
-	for _, order := range [][]uint32{{1, 2}, {2, 1}} {
+	orders := [][]uint32{{2, 1}}
+	if vp.Thorough() {
+		orders = [][]uint32{{1, 2}, {2, 1}}
+	}
+	for _, order := range orders {
 		b := vp.Bytes("dir", 3*bs)
 		c20HtreeRoot(b[0:bs], bs, 0, order)
 		// the two leaves: well-formed linear blocks
@@ -214,6 +218,10 @@ func VP_C20_dir_htree() {
 
 // VP_C20_dir_htree_depth1: root -> one interior dx_node -> two leaves (indirect_levels = 1).
 func VP_C20_dir_htree_depth1() {
+	if !vp.Thorough() {
+		vp.Cover("thorough tier only")
+		return
+	}
 	bs := 48
 	b := vp.Bytes("dir", 4*bs)
 	c20HtreeRoot(b[0:bs], bs, 1, []uint32{3})
@@ -253,4 +261,33 @@ func VP_C20_dir_htree_depth1() {
 		}
 	}
 	vp.Cover("two-level htree read")
+}
+
+// VP_C20_dirent_long_name: a single entry with a name of up to 255 bytes (rec_len 264): the whole name
+// is reported.
+func VP_C20_dirent_long_name() {
+	b := vp.Bytes("entry", 264)
+	b[4], b[5] = 264&0xff, 264>>8
+	nl := int(b[6])
+	vp.Assume(nl >= 200)
+	vp.Unwind(10)
+	vp.KnownPanic("KF-C20-6", "directoryentry.go:51") // name_len >= 248: 0x8+nameLength wraps in uint8
+	vp.NoPanic()
+	ents, err := parseDirEntriesLinear(b, false, 264, 2, 0, 0)
+	vp.AllowPanic()
+	vp.Assert(err == nil, "a block with one long entry parses")
+	if err != nil {
+		return
+	}
+	vp.Assert(len(ents) == 1, "one entry")
+	if len(ents) != 1 {
+		return
+	}
+	vp.Assert(len(ents[0].filename) == nl, "long name: length = name_len")
+	for _, j := range []int{0, 199, 246, 247, 253, 254} {
+		if j < nl && j < len(ents[0].filename) {
+			vp.Assert(ents[0].filename[j] == b[8+j], "long name: bytes")
+		}
+	}
+	vp.Cover("255-byte class name")
 }
